@@ -13,6 +13,10 @@
    completion wakes the waker; it may also wake without completing (BSpurious:
    intermediate progress).  b_done is the ghost completion time.
    Any thread timing = any interleaving of BTick with the other steps.
+   The waker's send is SyncSender::send, which BLOCKS while the buffer is full: a
+   wake issued by another thread just waits for the next recv (b_blocked), but a
+   wake issued from inside poll (BSelfWake) on a full buffer blocks the only thread
+   that could ever receive (BStuck).
    recv_timeout is taken as specified: it returns Ok if a token is there, and
    Timeout only when no token is there and the limit has been reached. *)
 From DustDDS Require Export Base.Machine.
@@ -24,6 +28,7 @@ Inductive bpc : Type :=
 | BPolling                         (* about to poll the future *)
 | BChecking                        (* poll returned Pending; about to read the clock *)
 | BWaiting (lim : Z)               (* in recv_timeout; lim = absolute time limit *)
+| BStuck                           (* the polling thread is blocked in the waker's send, forever *)
 | BDone (r : bres) (unseen : bool) (at_ : Z).
     (* returned r at clock at_; unseen = a wake token was in the channel when
        Timeout was returned without looking at the channel (the else branch) *)
@@ -46,6 +51,8 @@ Inductive bop : Type :=
 | BTick (d : Z)
 | BComplete          (* the future completes (another thread / the timer) and wakes *)
 | BSpurious          (* the future makes progress and wakes, without completing *)
+| BSelfWake          (* the future wakes its waker from INSIDE poll (yield pattern): the send is done by
+                        the polling thread itself; on a full buffer it blocks, and nobody can empty it *)
 | BPoll
 | BCheck
 | BRecvOk
@@ -70,6 +77,11 @@ Definition bstep (s : bst) (o : bop) : bst :=
                            (b_pc s) (Some (b_clock s)) (b_polls s))
       end
   | BSpurious => bwake s
+  | BSelfWake =>
+      match b_pc s with
+      | BPolling => if b_tok s then set_bpc s BStuck else bwake s
+      | _ => s
+      end
   | BPoll =>
       match b_pc s with
       | BPolling =>
